@@ -564,7 +564,10 @@ def _run_test_case_once(case, plugs_factory=None, callbacks=None):
     if case.get('plugs') is not None:
       slow = any((b_ or {}).get('td') == 'slow' for b_ in case['plugs'].values())
       waits = any((b_ or {}).get('td') in ('slow', 'hang', 'stuck') for b_ in case['plugs'].values())
-      if waits or zlib.crc32(json.dumps(case['plugs'], sort_keys=True).encode()) % 2:
+      if case.get('tdto') is not None:
+        # a station setting that is not positive: "if > 0; otherwise, will wait an unlimited time"
+        conf.load(plug_teardown_timeout_s=case['tdto'], _override=True)
+      elif waits or zlib.crc32(json.dumps(case['plugs'], sort_keys=True).encode()) % 2:
         conf.load(plug_teardown_timeout_s=0.4 if slow else 0.05, _override=True)
       # else: the default, no tearDown time-out (no tearDown of this case hangs)
     box = {}
